@@ -3,6 +3,7 @@ import Falcon.Model.Zq
 import Falcon.Model.Codec
 import Falcon.Model.KeyCodec
 import Falcon.Model.Ntt
+import Falcon.Model.Hash
 import Falcon.Spec.Codec
 /- dispatch of one line-protocol op to the model -/
 namespace Falcon.Driver
@@ -93,6 +94,7 @@ def execOp (chk : Bool) (tok : List String) : String :=
       let va := parseNats a; let vb := parseNats b; let d := Ntt.log2 va.length
       renderRes renderInts (Ntt.intt d (Ntt.hadamard (Ntt.ntt d va) (Ntt.ntt d vb)))
   | ["ref_negacyc", a, b] => let va := parseNats a; renderInts (Ntt.negacyc va.length va (parseNats b))
+  | ["hash_to_point", n, hx] => renderInts (Hash.hashToPoint (parseHex hx) (parseNat n))
   | _ => "bad-op"
 
 end Falcon.Driver
